@@ -4,6 +4,22 @@ from collections import OrderedDict
 import numpy as np
 
 
+def _plainarray(a):
+    """
+    The values (and the mask) of a variable as a plain numpy / numpy.ma array,
+    without the variable's attributes: an attribute named like an array
+    method (max = 5., mean = 2.) would otherwise shadow the method, also
+    where numpy's own reducers call it
+    """
+    if isinstance(a, np.ma.MaskedArray):
+        return np.ma.MaskedArray(
+            np.ma.getdata(a).view(np.ndarray), mask=np.ma.getmask(a),
+            fill_value=a.fill_value, copy=False)
+    if isinstance(a, np.ndarray):
+        return a.view(np.ndarray)
+    return a
+
+
 class PseudoNetCDFVariable(np.ndarray):
     """
     PseudoNetCDFVariable presents the Scientific.IO.NetCDF.NetCDFVariable
